@@ -182,6 +182,11 @@ struct ReplayFile {
     case_size_before: usize,
     case_size_after: usize,
     case: Value,
+    /// Some([from, to]): the violation needs the history of the worker process: runs from..to of the
+    /// batch (regenerated from verif_seed) are executed first, in order, in the replaying process,
+    /// then `case` (= run `to`). State that lives outside any thread (statics) is thereby rebuilt.
+    #[serde(default)]
+    history: Option<[u64; 2]>,
 }
 
 fn case_size(v: &Value) -> usize {
@@ -244,6 +249,15 @@ fn replay_inner<P: Prop>(rf: &ReplayFile) -> i32 {
         Ok(c) => c,
         Err(e) => die(&format!("replay file case does not parse: {}", e)),
     };
+    if let Some([from, to]) = rf.history {
+        let tier = Tier::parse(&rf.tier).unwrap_or(Tier::Quick);
+        for run in from..to {
+            arm_watchdog(P::cpu_limit_s());
+            let c = P::gen(rf.verif_seed, run, tier);
+            let mut st = Stats::default();
+            let _ = run_one::<P>(&c, &mut st);
+        }
+    }
     arm_watchdog(P::cpu_limit_s());
     let mut st = Stats::default();
     match run_one::<P>(&case, &mut st) {
@@ -562,6 +576,7 @@ fn check<P: Prop>(tier: Tier) -> i32 {
                 case_size_before: case_size(&v.case),
                 case_size_after: case_size(&v.case),
                 case: v.case.clone(),
+                history: None,
             };
             std::fs::create_dir_all(&dir).unwrap();
             std::fs::write(&raw_path, serde_json::to_vec_pretty(&rf).unwrap()).unwrap();
@@ -588,6 +603,49 @@ fn check<P: Prop>(tier: Tier) -> i32 {
             }
             last_err = format!("run {}: {} / {}", v.run, how, how2);
             let _ = std::fs::remove_file(&final_path);
+        }
+        // no member reproduces alone: does it reproduce together with the runs the same worker process
+        // executed before it (state outside any thread: statics, process-wide tables)? The window of
+        // earlier runs is grown from the failing run backwards to the start of its chunk.
+        if confirmed.is_none() {
+            if let Some(v) = vs.iter().find(|v| v.viol.check != "liveness") {
+                let chunk_start = (v.run / chunk) * chunk;
+                let base = format!("{}-{}-{}", id, seed, v.run);
+                let final_path = replay_dir.join(format!("{}.json", base));
+                let mut back = 1u64;
+                loop {
+                    let from = v.run.saturating_sub(back).max(chunk_start);
+                    let rf = ReplayFile {
+                        property: id.to_string(),
+                        check: v.viol.check.clone(),
+                        class: v.viol.class.clone(),
+                        signature: format!("{}|needs_process_history", v.viol.full_sig()),
+                        key: v.viol.key.clone(),
+                        detail: format!("{} [reproduces only after runs {}..{} of the same batch executed earlier in the same process: the result depends on process-wide state left by earlier library calls]", v.viol.detail, from, v.run),
+                        verif_seed: seed,
+                        run: v.run,
+                        tier: tier.name().into(),
+                        minimised: false,
+                        reexecutions: 0,
+                        case_size_before: case_size(&v.case),
+                        case_size_after: case_size(&v.case),
+                        case: v.case.clone(),
+                        history: Some([from, v.run]),
+                    };
+                    std::fs::write(&final_path, serde_json::to_vec_pretty(&rf).unwrap()).unwrap();
+                    let (ok, how) = replay_outer(&final_path);
+                    if ok {
+                        confirmed = Some(final_path.clone());
+                        break;
+                    }
+                    last_err = format!("{}; with process history from run {}: {}", last_err, from, how);
+                    if from == chunk_start {
+                        let _ = std::fs::remove_file(&final_path);
+                        break;
+                    }
+                    back *= 4;
+                }
+            }
         }
         let final_path = match confirmed {
             Some(p) => p,
